@@ -127,6 +127,82 @@ def run_impl(case, n_actions=1, event="line", arg=None, extra_cfg=None, per_acti
     return push.snapshots, raised
 
 
+class Hook:
+    """A local whose str() - called by the collector in the middle of thread A's collection - lets another thread take
+    a whole snapshot at another tracepoint, then returns.  Inert (plain text) until armed."""
+    __slots__ = ("fn", "fired")
+
+    def __init__(self):
+        self.fn, self.fired = None, 0
+
+    def __str__(self):
+        fn, self.fn = self.fn, None
+        if fn is not None:
+            self.fired += 1
+            fn()
+        return "hook"
+
+
+def run_pair(case_a, case_b, hook):
+    """Two snapshot tracepoints with their own limits in ONE handler; thread B's hit happens, start to end, while thread A
+    is inside its collection (at the moment the collector renders `hook`).  Returns ({'tp-a': snapshot, 'tp-b': snapshot}, raised)."""
+    import os
+    import threading
+    from deep.api.resource import Resource
+    from deep.api.tracepoint.trigger import LocationAction, Trigger, LineLocation, Location
+    from deep.config.config_service import ConfigService
+    from deep.config.tracepoint_config import TracepointConfigService
+    from deep.processor.trigger_handler import TriggerHandler
+    from deep.processor.context.trigger_context import TriggerContext
+    cfg = ConfigService({"APP_ROOT": "/app", "IN_APP_INCLUDE": "/other/inc", "IN_APP_EXCLUDE": "/app/lib"},
+                        tracepoints=TracepointConfigService())
+    cfg.resource = Resource.create()
+    push = FakePush()
+    handler = TriggerHandler(cfg, push)
+    trigs, frames = [], {}
+    for tid, case, line in (("tp-a", case_a, 11), ("tp-b", case_b, 22)):
+        lim = case["limits"]
+        conf = {"watches": [w for w, _ in case["watches"]], "frame_type": case["frame_type"], "stack_type": "stack",
+                "fire_count": "-1", "fire_period": "0", "log_msg": None,
+                "MAX_VARIABLES": lim["max_vars"], "MAX_COLLECTION_SIZE": lim["max_coll"],
+                "MAX_VAR_DEPTH": lim["max_depth"], "MAX_STRING_LENGTH": lim["max_str"], "MAX_TP_PROCESS_TIME": 10 ** 9}
+        top = case["frames"][0]
+        top["line"] = line
+        trigs.append(Trigger(LineLocation(os.path.basename(top["file"]), line, Location.Position.START),
+                             [LocationAction(tid, None, conf, LocationAction.ActionType.Snapshot)]))
+        back = None
+        for f in reversed(case["frames"]):
+            back = mk_frame(f["file"], f["func"], f["line"], f["locals"], back)
+        frames[tid] = back
+    handler.new_config(trigs)
+    table = {w: v for w, v in case_a["watches"]}
+    table.update({w: v for w, v in case_b["watches"]})
+    real_eval = TriggerContext.evaluate_expression
+    TriggerContext.evaluate_expression = lambda self, expr: table[expr] if expr in table else real_eval(self, expr)
+    raised = []
+
+    def hit(tid):
+        try:
+            handler.trace_call(frames[tid], "line", None)
+        except BaseException as e:
+            raised.append(e)
+
+    def other():
+        t = threading.Thread(target=hit, args=("tp-b",))
+        t.start()
+        t.join(30)
+    hook.fn = other
+    try:
+        hit("tp-a")
+        if not hook.fired:          # the budget never reached the hook: B hits afterwards
+            hook.fn = None
+            hit("tp-b")
+    finally:
+        TriggerContext.evaluate_expression = real_eval
+        handler._callbacks.clear()
+    return {s.tracepoint.id: s for s in push.snapshots}, (raised[0] if raised else None)
+
+
 def observe(snapshot, heap):
     """Canonical view of a snapshot: ids as ints, identity hashes as reader oids."""
     def ref(v):
